@@ -9,7 +9,7 @@
 //
 //	out = ok:<value> | err:<Enum> | panic
 //	a=1 iff the bytes allocated during the call (runtime.MemStats.TotalAlloc delta; single goroutine, GOMAXPROCS=1,
-//	GC off) exceed 2*(remaining input before the call) + 64 — a yes/no figure so that the line stays deterministic.
+//	GC off) exceed 2*(remaining input before the call) + 4096 (input-proportional plus a constant: a fixed-size lazily built table is not an input-driven allocation) — a yes/no figure so that the line stays deterministic.
 package main
 
 import (
@@ -215,7 +215,7 @@ func exec(c *hx.Ctx, line string) string {
 			}
 		}
 		a := 0
-		if allocated > uint64(2*remaining+64) {
+		if allocated > uint64(2*remaining+4096) {
 			a = 1
 			allocViolations++
 		}
